@@ -103,21 +103,19 @@ def worker_main(prop, tier, seed, widx, n_workers, budget, outfile, shrink_secon
     largest = {"size": -1, "case": None}
     best = {"case": None, "failure": None}
     clock = {"t0": None}
-    failed_before = {}
 
     class Violation(Exception):
         pass
 
+    class ShrinkTimeout(KeyboardInterrupt):
+        pass
+
     def run(case, raising):
-        # Shrinking is capped by wall time: once the cap is reached, cases already known to
-        # fail keep failing (without being re-run) and every new candidate passes, so the
-        # shrinker converges at once on the best failing example it has.
+        # Shrinking is capped by wall time: when the cap is reached the run is aborted (a
+        # KeyboardInterrupt subclass passes straight through Hypothesis) and the smallest failing
+        # case seen so far is reported.
         if raising and clock["t0"] is not None and time.time() - clock["t0"] > shrink_seconds:
-            known_failure = failed_before.get(case_hash(case))
-            if known_failure is None:
-                return
-            best.update(case=case, failure=known_failure)
-            raise Violation(known_failure.sig)
+            raise ShrinkTimeout()
         out = mod.check_case(case)
         stats["evaluations"] += 1
         for lab in set(out.labels):
@@ -147,8 +145,8 @@ def worker_main(prop, tier, seed, widx, n_workers, budget, outfile, shrink_secon
             if hit:
                 if clock["t0"] is None:
                     clock["t0"] = time.time()
-                best.update(case=case, failure=hit[0])
-                failed_before[case_hash(case)] = hit[0]
+                if best["case"] is None or len(canonical(case)) <= len(canonical(best["case"])):
+                    best.update(case=case, failure=hit[0])
                 raise Violation(hit[0].sig)
 
     raising = only_sig is not None
@@ -172,7 +170,7 @@ def worker_main(prop, tier, seed, widx, n_workers, budget, outfile, shrink_secon
 
     try:
         test()
-    except Violation:
+    except (Violation, ShrinkTimeout):
         f = best["failure"]
         stats["shrunk"] = {
             "sig": f.sig,
@@ -351,11 +349,14 @@ def _main(prop, tier, seed, a):
     # failures: shrink one representative per signature (first three signatures)
     if merged["failures"]:
         sigs = sorted(merged["failures"], key=lambda s: (-merged["failures"][s]["count"], s))
+        no_shrink = bool(os.environ.get("VERIF_NO_SHRINK"))
         for sig in sigs[:3]:
             rec = merged["failures"][sig]
             w = rec["worker"]
             shrunk = None
             try:
+                if no_shrink:
+                    raise HarnessError("shrinking disabled by VERIF_NO_SHRINK")
                 res = run_shards(prop, tier, seed, n_workers, budget, shrink_seconds, only_sig=sig, workers=[w])
                 shrunk = res[0]["shrunk"]
             except HarnessError as exc:
